@@ -240,6 +240,129 @@ func runC10(r *Run) {
 	// ---------- R4 ----------
 	nilWrapRule(r, "R4")
 
+	// ---------- R6 ----------
+	r.Rule("R6", "PATH+FLOW.hook-guards: in PostTxProcessing the payout (MintCoins / CallEVM burn / SendCoinsFromModuleToAccount) is reachable only over the passing edges of: hook enabled (EnableErc20, EnableEVMHook), event name == Transfer, positive amount, registered pair found, recipient topic == ModuleAddress, pair.Enabled; the coin amount derives from the event data, the denom from the pair, the payee from topic 1, the burned contract is the log's address")
+	if fn, ok := P.FnOK("(" + erc20K + ".Keeper).PostTxProcessing"); ok {
+		isPayout := isCallMatching(func(ci CallInfo) bool {
+			switch ci.Name {
+			case "MintCoins", "SendCoinsFromModuleToAccount":
+				return ci.Invoke
+			case "CallEVM":
+				return true
+			}
+			return false
+		})
+		nPay := 0
+		eachInstr(fn, func(in ssa.Instruction) {
+			if isPayout(in) {
+				nPay++
+			}
+		})
+		r.Floor("R6", "payout calls in PostTxProcessing", nPay, 3)
+		type g struct {
+			name, bad string
+			m         condMatch
+		}
+		fieldCond := func(sn, f string) condMatch {
+			return func(cond ssa.Value) (bool, bool) {
+				return true, isFieldLoad(cond, sn, f)
+			}
+		}
+		guards := []g{
+			{"enable-erc20", "with the erc20 module disabled", fieldCond("Params", "EnableErc20")},
+			{"enable-evm-hook", "with the EVM hook disabled", fieldCond("Params", "EnableEVMHook")},
+			{"pair-enabled", "for a disabled token pair", fieldCond("TokenPair", "Enabled")},
+			{"event-is-transfer", "for an event that is not Transfer", func(cond ssa.Value) (bool, bool) {
+				isEq, x, y, ok := asEquality(cond)
+				if !ok {
+					return false, false
+				}
+				for _, pr := range [][2]ssa.Value{{x, y}, {y, x}} {
+					if sv, ok := constString(pr[1]); ok && sv == "Transfer" && backSlice(pr[0]).HasField("Event", "Name") {
+						return isEq, true
+					}
+				}
+				return false, false
+			}},
+			{"recipient-is-module", "for tokens sent to any address (not only the module's)", func(cond ssa.Value) (bool, bool) {
+				c, ok := cond.(*ssa.Call)
+				if !ok {
+					return false, false
+				}
+				ci := callInfo(c)
+				if ci.Name != "Equal" || ci.PkgPath != "bytes" {
+					isEq, x, y, ok := asEquality(cond)
+					if !ok {
+						return false, false
+					}
+					sx, sy := backSlice(x), backSlice(y)
+					a := sx.HasField("Log", "Topics") && sy.Has(moduleAddrGlobal(P))
+					b := sy.HasField("Log", "Topics") && sx.Has(moduleAddrGlobal(P))
+					return isEq, a || b
+				}
+				s0, s1 := backSlice(c.Call.Args[0]), backSlice(c.Call.Args[1])
+				mg := moduleAddrGlobal(P)
+				a := s0.HasField("Log", "Topics") && s1.Has(mg)
+				b := s1.HasField("Log", "Topics") && s0.Has(mg)
+				return true, mg != nil && (a || b)
+			}},
+			{"pair-found", "for a contract that is not a registered token pair", func(cond ssa.Value) (bool, bool) {
+				// the comma-ok result of GetTokenPair
+				if e, ok := cond.(*ssa.Extract); ok && e.Index == 1 {
+					if c, ok := e.Tuple.(*ssa.Call); ok && callInfo(c).Name == "GetTokenPair" {
+						return true, true
+					}
+				}
+				return false, false
+			}},
+			{"amount-positive", "for a non-positive or malformed amount", func(cond ssa.Value) (bool, bool) {
+				b, ok := cond.(*ssa.BinOp)
+				if !ok {
+					return false, false
+				}
+				c, ok := callNamed(b.X, "Sign")
+				if !ok {
+					return false, false
+				}
+				_ = c
+				n, ok := constInt(b.Y)
+				if !ok || n != 1 {
+					return false, false
+				}
+				switch b.Op {
+				case token.EQL:
+					return true, true
+				case token.NEQ:
+					return false, true
+				}
+				return false, false
+			}},
+		}
+		for _, gd := range guards {
+			requireGuard(r, "R6", fnID(fn)+"#guard/"+gd.name, fn, gd.m, nil, isPayout, "payout only over the passing edge", "the EVM hook can pay out coins "+gd.bad)
+		}
+		// provenance of what is paid
+		eachCall(fn, func(ci CallInfo) {
+			switch {
+			case ci.Name == "SendCoinsFromModuleToAccount" && ci.Invoke:
+				sl := backSlice(argN(ci.Instr, 3))
+				r.Check(sl.HasField("TokenPair", "Denom") && sl.HasCall(func(g CallInfo) bool { return g.Name == "Unpack" }), "R6", fnID(fn)+"#paid-coins", P.Pos(instrPos(ci.Instr)), "paid coins = (pair denom, amount unpacked from the event)", "the coins paid out by the hook do not derive from the pair's denom and the event's amount")
+				rs := backSlice(argN(ci.Instr, 2))
+				r.Check(rs.HasField("Log", "Topics") && !rs.HasField("Log", "Address"), "R6", fnID(fn)+"#payee", P.Pos(instrPos(ci.Instr)), "payee = topic 1 (the token sender)", "the hook pays someone other than the sender recorded in the Transfer event")
+			case ci.Name == "CallEVM":
+				okC := false
+				for _, a := range ci.Instr.Common().Args {
+					if backSlice(a).HasField("Log", "Address") {
+						okC = true
+					}
+				}
+				r.Check(okC, "R6", fnID(fn)+"#burn-contract", P.Pos(instrPos(ci.Instr)), "burn is called on the log's contract", "the hook burns on a contract other than the one that emitted the event")
+			}
+		})
+	} else {
+		r.Bad("R6", "anchor/PostTxProcessing", "", "not found")
+	}
+
 	// ---------- R5 ----------
 	if fn, ok := P.FnOK("(" + erc20K + ".Keeper).OnRecvPacket"); ok {
 		n := 0
@@ -460,14 +583,18 @@ func nilWrapRule(r *Run, rule string) {
 				return
 			}
 			// the wrapped (nil) result must reach a return to matter
+			// (in a function with a defer the results are spilled: `*slot = Wrap(...); rundefers; return *slot`,
+			// so the operands are taken through retOperands)
 			returned := false
-			if c.Referrers() != nil {
-				for _, ref := range *c.Referrers() {
-					if _, ok := ref.(*ssa.Return); ok {
-						returned = true
+			eachInstr(fn, func(in2 ssa.Instruction) {
+				if ret, ok := in2.(*ssa.Return); ok {
+					for _, op := range retOperands(ret) {
+						if op == ssa.Value(c) {
+							returned = true
+						}
 					}
 				}
-			}
+			})
 			if !returned {
 				return
 			}
@@ -480,4 +607,16 @@ func nilWrapRule(r *Run, rule string) {
 	if bad == 0 {
 		r.OK(rule, "scope-S", "", fmt.Sprintf("%d Wrap/Wrapf call sites, none wraps a provably nil error", n))
 	}
+}
+
+// moduleAddrGlobal: the package variable x/erc20/types.ModuleAddress (as an SSA global), nil if absent.
+func moduleAddrGlobal(P *Prog) ssa.Value {
+	for path, sp := range P.SSAPkg {
+		if pathHasSuffix(path, "x/erc20/types") {
+			if g, ok := sp.Members["ModuleAddress"].(*ssa.Global); ok {
+				return g
+			}
+		}
+	}
+	return nil
 }
